@@ -14,6 +14,7 @@ mod simprog;
 mod simprops2;
 mod c34;
 mod c32;
+mod c25;
 
 use std::io::{BufRead, Write};
 use std::path::PathBuf;
@@ -66,6 +67,7 @@ fn main() {
         "c29" => simprops2::c29(&mut o, &mut ex, seed, thorough),
         "c30" => simprops2::c30(&mut o, &mut ex, seed, thorough),
         "c33" => simprops2::c33(&mut o, &mut ex, seed, thorough),
+        "c25" => c25::gen(&mut o, &mut ex, seed, thorough),
         "c34" => c34::gen(&mut o, &mut ex, seed, thorough),
         "c32" => c32::gen(&mut o, &mut ex, seed, thorough),
         "c31" => c32::c31(&mut o, &mut ex, seed, thorough),
